@@ -27,7 +27,7 @@ rule r5 { condition: ext_i != 7 or ext_f == 2.0 or ext_f == 3.0 or not ext_b or 
 FILES = [("f_a.txt", b"--abcd--efgh--abcd"), ("f_b.txt", b"nothing to see"), ("f_empty", b""), ("f_c.txt", b"xxy abcd xy xxxy"), ("f_pe", None)]
 EXT = ["-d", "ext_i=7", "-d", "ext_f=2.5", "-d", "ext_b=true", "-d", "ext_s=hello"]          # one external of every type; the float has a fraction that matters
 EXT_NEUTRAL = ["-d", "ext_i=0", "-d", "ext_f=0.0", "-d", "ext_b=false", "-d", "ext_s=zzz"]
-OPTSETS = [[], ["-s"], ["-s", "-L", "-X"], ["-m", "-g", "-e"], ["-c"], ["-n"], ["-t", "t1"], ["-i", "r1"], ["-f"]]
+OPTSETS = [[], ["-s"], ["-s", "-L", "-X"], ["-m", "-g", "-e"], ["-c"], ["-n"], ["-t", "t1"], ["-i", "r1"], ["-f"], ["-f", "-s"]]      # -f changes which occurrences are listed, visible only with -s
 
 
 def sched_binary(q, t=3):
@@ -166,7 +166,7 @@ def schedule_part(ck, quick, stats):
         exe = sched_binary(q)
         d0 = Driver(exe)
         for n in ((2, 3) if quick else (0, 1, 2, 3, 4)):
-            for opts in (OPTSETS[:3] + OPTSETS[4:5] if quick else OPTSETS):
+            for opts in (OPTSETS[:3] + OPTSETS[4:5] + OPTSETS[9:] if quick else OPTSETS):
                 base = EXT + opts + [rules]
                 # reference: every file alone, single-file mode (no scanning threads)
                 exp_blocks, exp_lines, exp_exit = collections.Counter(), set(), 0
@@ -201,7 +201,7 @@ def blackbox_part(ck, quick):
     big = os.path.join(WORK, "big"); os.makedirs(big)
     for i in range(200):
         sub = os.path.join(big, "s%d" % (i % 7)); os.makedirs(sub, exist_ok=True)
-        data = [b"--abcd--", b"nothing", b"", b"xxy xy efgh", yv.blob("PE32_FILE")][i % 5] + (b"%d" % i if i % 5 != 2 else b"")
+        data = [b"--abcd--abcd--", b"nothing", b"", b"xxy xy efgh", yv.blob("PE32_FILE")][i % 5] + (b"%d" % i if i % 5 != 2 else b"")
         open(os.path.join(sub, "file%03d" % i), "wb").write(data)
     rules = os.path.join(WORK, "rules.yar")
     n = 0
@@ -212,8 +212,16 @@ def blackbox_part(ck, quick):
     c1 = os.path.join(WORK, "r_ext7.yarc"); c2 = os.path.join(WORK, "r_ext0.yarc")
     run([bins["yarac"]] + EXT + [rules, c1]); run([bins["yarac"]] + EXT_NEUTRAL + [rules, c2])
     forms = [("source", EXT + [rules]), ("compiled:ext-at-compile-time", ["-C", c1]), ("compiled:ext-at-scan-time", ["-C"] + EXT + [c2]), ("compiled:both", ["-C"] + EXT + [c1])]
-    for opts in (OPTSETS if not quick else OPTSETS[:2] + OPTSETS[3:5]):
+    allfiles = sorted(os.path.join(dp, f) for dp, _, fs in os.walk(big) for f in fs)
+    for opts in (OPTSETS if not quick else OPTSETS[:2] + OPTSETS[3:5] + OPTSETS[9:]):
+        # reference: every file in its own invocation (single-file mode: no scanning threads, options applied on the single-file path)
         ref = None
+        per_file = collections.Counter(); per_rc = 0
+        for fp in allfiles:
+            rc, out, err = run([bins["yara"]] + opts + EXT + [rules, fp]); n += 1
+            if "-c" in opts: out = "\n".join("%s: %s" % (fp, l) for l in out.split("\n") if l)
+            per_file.update(blocks(out, opts)); per_rc |= (rc != 0)
+        ref = ((per_file, bool(per_rc)), "per-file-invocations", 0)
         for fname, fargs in forms:
             for p in ((1, 4) if quick else (1, 2, 4, 8, 32)):
                 for rep in range(1 if quick else 3):
@@ -221,7 +229,7 @@ def blackbox_part(ck, quick):
                     obs = (collections.Counter(blocks(out, opts)), rc != 0)
                     if ref is None: ref = (obs, fname, p)
                     elif obs != ref[0]:
-                        what = "compiled-vs-source" if fname != ref[1] else "thread-count"
+                        what = "directory-vs-per-file" if (fname == "source" and ref[1] == "per-file-invocations") else "compiled-vs-source" if fname != ref[1] else "thread-count"
                         ck.violation("C18:blackbox:%s:%s" % (what, fname.split(":")[-1]), dict(options=opts, form=fname, threads=p, reference_form=ref[1], reference_threads=ref[2], exit=rc,
                                                                                         only_here=sorted((obs[0] - ref[0][0]).elements())[:5], only_reference=sorted((ref[0][0] - obs[0]).elements())[:5], stderr=err[-500:]))
     # exit status: an error reported for a file of a directory scan must make the exit status non-zero, as it does for the file alone
